@@ -15,7 +15,7 @@ variable {α : Type} [Semiring α]
 /-- Init yields ones -/
 theorem init_ones (E : Engine α) (ks : List Key) :
     initT E ks = ks.map fun k => (k, List.replicate (E.numel k) (1 : α)) := by
-  sorry
+  rfl
 
 /-- Grad returns, for each input, the vector–Jacobian product of the given cotangents: the sum over
     the outputs of `cotᵀ · block`, the block being zero for unreachable pairs -/
@@ -24,13 +24,19 @@ theorem grad_is_vjp (E : Engine α) (hE : E.WF) (outs : List Key) (cots : List (
     (hlen : ∀ oc ∈ List.zip outs cots, oc.2.length = E.numel oc.1) :
     materialize E i (E.vjp1 outs cots i) =
       vsum (E.numel i) ((List.zip outs cots).map fun oc => vecMat (E.numel i) oc.2 (E.block oc.1 i)) := by
-  sorry
+  have _ := hc
+  have _ := hlen
+  exact vjp1_spec E hE outs cots i
 
 /-- zeros for unreachable inputs -/
 theorem grad_unreachable_zero (E : Engine α) (outs : List Key) (cots : List (Vec α)) (i : Key)
     (hk : ∀ o ∈ outs, E.jac o i = none) :
     materialize E i (E.vjp1 outs cots i) = zeros (E.numel i) := by
-  sorry
+  have h : E.vjp1 outs cots i = none := by
+    apply vjp1_unreachable
+    intro oc hoc
+    exact hk oc.1 (List.of_mem_zip hoc).1
+  rw [h]; rfl
 
 /-- the VJP is additive in the cotangents … -/
 theorem vjp_add (E : Engine α) (hE : E.WF) (outs : List Key) (c₁ c₂ : List (Vec α)) (i : Key)
@@ -39,14 +45,64 @@ theorem vjp_add (E : Engine α) (hE : E.WF) (outs : List Key) (c₁ c₂ : List 
     (hl₂ : ∀ oc ∈ List.zip outs c₂, oc.2.length = E.numel oc.1) :
     materialize E i (E.vjp1 outs (List.zipWith vadd c₁ c₂) i) =
       vadd (materialize E i (E.vjp1 outs c₁ i)) (materialize E i (E.vjp1 outs c₂ i)) := by
-  sorry
+  rw [vjp1_spec E hE, vjp1_spec E hE, vjp1_spec E hE]
+  have key : ∀ (outs : List Key) (c₁ c₂ : List (Vec α)),
+      c₁.length = outs.length → c₂.length = outs.length →
+      (∀ oc ∈ List.zip outs c₁, oc.2.length = E.numel oc.1) →
+      (∀ oc ∈ List.zip outs c₂, oc.2.length = E.numel oc.1) →
+      (List.zip outs (List.zipWith vadd c₁ c₂)).map
+          (fun oc => vecMat (E.numel i) oc.2 (E.block oc.1 i)) =
+        List.zipWith vadd
+          ((List.zip outs c₁).map fun oc => vecMat (E.numel i) oc.2 (E.block oc.1 i))
+          ((List.zip outs c₂).map fun oc => vecMat (E.numel i) oc.2 (E.block oc.1 i)) := by
+    intro outs
+    induction outs with
+    | nil => intro c₁ c₂ _ _ _ _; simp
+    | cons o outs ih =>
+      intro c₁ c₂ h₁ h₂ hl₁ hl₂
+      cases c₁ with
+      | nil => simp at h₁
+      | cons a c₁ =>
+        cases c₂ with
+        | nil => simp at h₂
+        | cons b c₂ =>
+          simp only [List.zipWith_cons_cons, List.zip_cons_cons, List.map_cons]
+          congr 1
+          · have ha := hl₁ (o, a) (by simp)
+            have hb := hl₂ (o, b) (by simp)
+            exact combine_vadd _ _ _ _ (by simp at ha hb; omega) (block_rows E hE o i)
+          · exact ih c₁ c₂ (by simpa using h₁) (by simpa using h₂)
+              (fun oc hoc => hl₁ oc (by simp [hoc])) (fun oc hoc => hl₂ oc (by simp [hoc]))
+  rw [key outs c₁ c₂ h₁ h₂ hl₁ hl₂]
+  apply vsum_zipWith_vadd
+  · simp [h₁, h₂]
+  · intro x hx
+    obtain ⟨oc, _, rfl⟩ := List.mem_map.mp hx
+    exact vecMat_length E hE _ _ _
+  · intro x hx
+    obtain ⟨oc, _, rfl⟩ := List.mem_map.mp hx
+    exact vecMat_length E hE _ _ _
 
 /-- … and homogeneous -/
 theorem vjp_smul {β : Type} [CommSemiring β] (E : Engine β) (hE : E.WF) (outs : List Key)
     (c : List (Vec β)) (t : β) (i : Key) (h : c.length = outs.length)
     (hl : ∀ oc ∈ List.zip outs c, oc.2.length = E.numel oc.1) :
     materialize E i (E.vjp1 outs (c.map (smul t)) i) = smul t (materialize E i (E.vjp1 outs c i)) := by
-  sorry
+  have _ := h
+  have _ := hl
+  rw [vjp1_spec E hE, vjp1_spec E hE]
+  have key : (List.zip outs (c.map (smul t))).map
+          (fun oc => vecMat (E.numel i) oc.2 (E.block oc.1 i)) =
+        ((List.zip outs c).map fun oc => vecMat (E.numel i) oc.2 (E.block oc.1 i)).map (smul t) := by
+    rw [List.zip_map_right, List.map_map, List.map_map]
+    apply List.map_congr_left
+    intro oc _
+    exact combine_smul _ _ _ _ (block_rows E hE oc.1 i)
+  rw [key]
+  apply vsum_map_smul
+  intro x hx
+  obtain ⟨oc, _, rfl⟩ := List.mem_map.mp hx
+  exact vecMat_length E hE _ _ _
 
 /-- Jac = Grad row by row, for every chunk size: row `r` of the Jacobian of input `i` is what `Grad`
     returns for the `r`-th row of cotangents -/
@@ -55,7 +111,21 @@ theorem jac_rows_are_grads (E : Engine α) (hE : E.WF) (outs ins : List Key) (c 
     (h : jacT E outs ins c retain j = .ok (j', sw)) (ho : outs ≠ [])
     (r : Nat) (hr : r < (lookupD j (outs.headD 0) []).length) (i : Key) (hi : i ∈ ins) :
     (lookupD j' i []).getD r [] = materialize E i (E.vjp1 outs (cotRow outs j r) i) := by
-  sorry
+  have _ := hins
+  have hne : ins ≠ [] := by intro h0; rw [h0] at hi; simp at hi
+  have hm : 0 < (lookupD j (outs.headD 0) []).length := by omega
+  have hcall := jacT_callOk_of_ok E outs ins c retain j hne ho hm hc _ h
+  obtain ⟨sw', hok⟩ := jacT_ok E outs ins c retain j hne ho hm hc hcall
+  rw [hok] at h
+  injection h with h
+  injection h with hj' _
+  rw [← hj', lookupD_zip_subMatrices E.numel ins _ i hi,
+    getD_map_of_lt _ _ r [] [] (by simpa using hr)]
+  have hrow : ((List.range (lookupD j (outs.headD 0) []).length).map (jacRow E outs ins j)).getD r []
+      = jacRow E outs ins j r := range_map_getD_lt _ _ r [] hr
+  rw [hrow]
+  unfold jacRow
+  exact sliceOf_flatMap E.numel ins i _ hi (fun k _ => materialize_vjp1_length E hE outs _ k)
 
 /-- Diagonalize: one row per scalar (in key order) holding that scalar's gradient entry at its own
     position and zeros elsewhere -/
@@ -69,7 +139,31 @@ theorem diagonalize_spec (E : Engine α) (considered : List Key) (g : GDict α)
       ∀ c, c < E.numel k →
         (Jk.getD r []).getD c 0 =
           if r = offsetOf E.numel considered k + c then (lookupD g k []).getD c 0 else 0 := by
-  sorry
+  have _ := hnd
+  intro L Jk
+  have hflat : (considered.flatMap fun k => lookupD g k []).length = L :=
+    length_flatMap_eq E.numel considered _ hlen
+  have hJk : Jk = (diagMat (considered.flatMap fun k => lookupD g k [])).map fun row =>
+      (row.drop (offsetOf E.numel considered k)).take (E.numel k) :=
+    lookupD_diagonalizeT E considered g k hk
+  have hoff := offsetOf_add_le E.numel considered k hk
+  refine ⟨by rw [hJk, List.length_map, diagMat_length, hflat], ?_⟩
+  intro r hr
+  have hrow : Jk.getD r [] = (List.range (E.numel k)).map fun c =>
+      if r = offsetOf E.numel considered k + c then
+        (considered.flatMap fun k => lookupD g k []).getD r 0 else 0 := by
+    have hr' : r < (diagMat (considered.flatMap fun k => lookupD g k [])).length := by
+      rw [diagMat_length, hflat]; exact hr
+    rw [hJk, getD_map_of_lt _ _ r [] [] hr', diagMat_getD _ r (by rw [hflat]; exact hr), hflat]
+    exact range_map_drop_take _ L _ _ hoff
+  refine ⟨by rw [hrow]; simp, ?_⟩
+  intro c hc
+  rw [hrow, List.getD_eq_getElem?_getD, List.getElem?_map, List.getElem?_range hc]
+  simp only [Option.map_some, Option.getD_some]
+  by_cases hrc : r = offsetOf E.numel considered k + c
+  · simp only [hrc, if_true]
+    exact flatMap_getD_offset E.numel considered k _ hk hlen c hc 0
+  · simp only [hrc, if_false]
 
 /-- Stack stacks per-key gradients with zeros where a key is absent -/
 theorem stack_spec (E : Engine α) (ds : List (GDict α)) (k : Key)
@@ -78,11 +172,13 @@ theorem stack_spec (E : Engine α) (ds : List (GDict α)) (k : Key)
       ds.map fun d => match d.find? (·.1 == k) with
                       | some (_, v) => v
                       | none => zeros (E.numel k) := by
-  sorry
+  have hk' : k ∈ unionKeys ds := (mem_unionKeys ds k).mpr hk
+  unfold stackT
+  exact lookupD_map_self _ (unionKeys ds) k [] hk'
 
 theorem stack_keys (E : Engine α) (ds : List (GDict α)) (k : Key) :
     k ∈ (stackT E ds).map (·.1) ↔ ∃ d ∈ ds, ∃ v, (k, v) ∈ d := by
-  sorry
+  rw [stackT_keys, mem_unionKeys]
 
 /-- Aggregate applies the aggregator to the column-wise concatenation of the per-key matrices (in
     key order) and returns each key its own slice -/
@@ -93,19 +189,24 @@ theorem aggregate_spec (E : Engine α) (A : Mat α → Except Err (Vec α)) (key
     (hlen : v.length = (keyOrder.map E.numel).sum) :
     ∃ g, aggregateT E A keyOrder j = .ok g ∧ g.map (·.1) = keyOrder ∧
       ∀ k ∈ keyOrder, lookupD g k [] = sliceOf E.numel keyOrder k v := by
-  sorry
+  have _ := hnd
+  have _ : Semiring α := inferInstance
+  refine ⟨_, aggregateT_ok E A keyOrder j hne v hA hlen, zip_splitCols_keys E.numel keyOrder v, ?_⟩
+  intro k hk
+  exact lookupD_zip_splitCols E.numel keyOrder k v hk
 
 /-- Select keeps exactly the requested entries -/
 theorem select_spec {β : Type} (keys : List Key) (d : List (Key × β)) (k : Key) (v : β)
     (hd : (d.map (·.1)).Nodup) :
     (k, v) ∈ selectT keys d ↔ k ∈ keys ∧ (k, v) ∈ d := by
-  sorry
+  exact mem_selectT keys d k v hd
 
 /-- splitting the columns of a matrix per key and concatenating the blocks again is the identity
     (`_extract_sub_matrices` followed by `_unite`) -/
 theorem unite_subMatrices (lengths : List Nat) (M : Mat α)
     (hrow : ∀ row ∈ M, row.length = lengths.sum) :
     unite M.length (subMatrices lengths M) = M := by
-  sorry
+  have _ : Semiring α := inferInstance
+  exact unite_subMatrices_eq lengths M hrow
 
 end Tjd.Props.C15
